@@ -302,7 +302,11 @@ func (h *history) step(op string) bool {
 		if _, ok := err.(badRequest); ok {
 			c.Emit(stepOp, h.start, opsField, k, before, "badrequest:"+core.Escape(err.Error()), "", "", "", "", "", "", "", "", "", "")
 		} else {
-			c.Emit(stepOp, h.start, opsField, k, before, "err", "", "", "", "", "", "", "", "", core.Escape(err.Error()), "")
+			extra := core.Escape(err.Error())
+			if extraUndo != "" {
+				extra = extraUndo // what happened since the Apply: the driver checks that a refusal is plausible
+			}
+			c.Emit(stepOp, h.start, opsField, k, before, "err", "", "", "", "", "", "", "", "", extra, "")
 		}
 		return false
 	}
